@@ -226,6 +226,11 @@ def run(tier='quick'):
                         'Database2/m.db alone (a Database2 directory without m.db is not a 2.x library)', floor=8)
     from . import c13 as _c13
     _c13._layout(prog, chk, X4)
+    X5 = chk.rule('X5', 'a library is created only where none exists: every function that opens the files of a new '
+                        'on-disk library refuses (throws) when any file the layout probe of load looks at is already '
+                        'there - otherwise the directory ends up with both layouts, which load rejects, or a new '
+                        'library is laid over the files of an old one', floor=2)
+    creators_refuse_existing(prog, chk, X5)
     return chk.finish(
         'Static comparison of DDL: the statement list each of the %d creator classes executes '
         '(final overriders resolved by class hierarchy, read from the clang AST) is interpreted over '
@@ -235,6 +240,88 @@ def run(tier='quick'):
         'enumerated. Not decided here: verify() acceptance (C17), detection on load (C13).'
         % (len(classes), len(refs), sum(r.nstatements for r in refs)),
         exhaustive=True)
+
+
+def creators_refuse_existing(prog, chk, rid):
+    from .. import callgraph, effects
+    from . import c16
+    cg = callgraph.get(prog)
+    eff = effects.Effects(prog, cg)
+    det = prog.func('djinterop::engine::detect_is_database2')
+    probed = set()
+    for n in walk(det.body):
+        if n.get('kind') == 'CallExpr' and len(children(n)) > 1 and c16._is_existence_test(prog, det, n):
+            sp = c16._sym_path(prog, det, children(n)[1])
+            if sp is not None and len(sp) > 1:
+                probed.add(tuple(x if isinstance(x, str) else ('param', 'directory') for x in sp))
+    if len(probed) < 2:
+        raise AnalysisBroken('X5: detect_is_database2 probes %d file(s); expected the m.db of both layouts' % len(probed))
+    # ... and every file a loader demands to exist before it opens it (the perfdata file of the legacy layout)
+    lroot = prog.func('djinterop::engine::load_database', 'engine_schema &')
+    les, lreach = eff.transitive([lroot])
+    for e in les:
+        if e.cls == 'attach' and e.site is not None and e.site.binds:
+            sp = c16._sym_path(prog, e.func, e.site.binds[0])
+            if sp is not None and len(sp) > 1 and sp in c16._existence_guards(prog, e.func, e.site.node):
+                probed.add(tuple(x if isinstance(x, str) else ('param', 'directory') for x in sp))
+    root = prog.func('djinterop::engine::create_database')
+    es, reach = eff.transitive([root])
+    openers = {}
+    # a function that demands the file it opens to exist is a loader (the class-hierarchy call graph reaches the
+    # loading constructor of engine_storage from create_database); creators are the openers that do not
+    for e in es:
+        if e.cls == 'attach' and e.site is not None and e.site.binds:
+            sp = c16._sym_path(prog, e.func, e.site.binds[0])
+            if sp is not None and sp in c16._existence_guards(prog, e.func, e.site.node):
+                continue
+            openers.setdefault(e.func.key, e.func)
+    for f, node, arg in c16._open_sites(prog, cg, reach):
+        sp = c16._sym_path(prog, f, arg)
+        if sp == (':memory:',) or (sp is not None and sp in c16._existence_guards(prog, f, node)):
+            continue
+        openers.setdefault(f.key, f)
+    if not openers:
+        raise AnalysisBroken('X5: create_database reaches no function that opens a database file')
+    for key, f in sorted(openers.items(), key=lambda kv: kv[1].qualname):
+        chk.analysed(f)
+        # refusals made by f itself or by a function on the call path from create_database to f
+        chain = [f]
+        k = key
+        while reach[k][1] is not None:
+            k = reach[k][1]
+            chain.append(reach[k][0])
+        refused = set()
+        for g in chain:
+            for st in walk(g.body):
+                if st.get('kind') != 'IfStmt':
+                    continue
+                c = children(st)
+                if not any(x.get('kind') == 'CXXThrowExpr' for x in walk(c[1])):
+                    continue
+                negated = set()
+                for x in walk(c[0]):
+                    if x.get('kind') == 'UnaryOperator' and x.get('opcode') == '!':
+                        for y in walk(children(x)[0]):
+                            negated.add(id(y))
+                for x in walk(c[0]):
+                    if x.get('kind') == 'CallExpr' and len(children(x)) > 1 and id(x) not in negated and \
+                            c16._is_existence_test(prog, g, x):
+                        sp = c16._sym_path(prog, g, children(x)[1])
+                        if sp is not None:
+                            refused.add(tuple(y if isinstance(y, str) else ('param', 'directory') for y in sp))
+        short = f.qualname.replace('djinterop::engine::', '')
+        missing = sorted(probed - refused, key=str)
+        inst = '%s refuses when %s exist(s)' % (short, ', '.join(c16._show_path(x) for x in sorted(probed & refused, key=str)) or 'nothing')
+        if not missing:
+            chk.ok(rid, inst, locstr(f.node))
+        else:
+            chk.violation(rid, '%s|creates over %s' % (short, ', '.join(c16._show_path(x) for x in missing)),
+                          locstr(f.node),
+                          '%s opens the files of a new library without refusing when %s is already there (it refuses '
+                          'only for: %s): create_database then succeeds in a directory that holds a library, and '
+                          'load_database rejects a directory with both layouts - the library just created is not '
+                          'recognised on load' % (short, ' / '.join(c16._show_path(x) for x in missing),
+                                                  ', '.join(c16._show_path(x) for x in sorted(refused, key=str)) or 'nothing'))
 
 
 def _loc_of(cats, alias, key, short):
